@@ -100,6 +100,9 @@ CRAFTED = [
     ("depth-zero", [sample(0), cascade(0), transform(0), write_wtml(), sample(0, LEFT, "clobber", 1), transform(2)]),
     ("empty-first", [cascade(2), transform(2), write_wtml(), sample(1, MID), cascade(2), transform(2)]),
     ("update-depth-zero", [sample(0, LEFT, "update", 0), sample(0, RIGHT, "update", 1), sample(1, MID, "update", 0), cascade(1), transform(1), write_wtml()]),
+    # outputs whose data tiles have disappeared
+    ("stale-outputs", [sample(1), transform(1), sample(1, LEFT, "clobber", 1), transform(1), cascade(1), transform(1)]),
+    ("stale-outputs-deep", [sample(2, MID), transform(2), sample(2, RIGHT, "clobber", 0), cascade(2), transform(2), transform(1)]),
     # everything removed again
     ("vanish", [sample(2, LEFT), cascade(2), transform(2), sample(2, RIGHT, "clobber", 1), cascade(2), cascade(1)]),
     # sessions
@@ -467,6 +470,7 @@ def replay_behaviour(job):
     old = signal.signal(signal.SIGALRM, _alarm)
     signal.alarm(300)
     hist_txt = []
+    builder_drift = False
     try:
         st = {"base": base}
         st["pio"] = PyramidIO(base, default_format="npy")
@@ -496,6 +500,10 @@ def replay_behaviour(job):
             if diffs:
                 deviation = rec["act"] in ("CascadeLeavesOrphans", "TransformLeavesStale")
                 for kind, msg in diffs:
+                    if kind == "builder":
+                        if builder_drift:
+                            continue
+                        builder_drift = True
                     if kind in DOCUMENTED and not deviation:
                         findings.append(("V", "G02:%s:%s" % (op, kind), "after %s: %s %s" % (cmd_text(cmd), msg, where)))
                     elif deviation and kind in DOCUMENTED:
@@ -503,7 +511,8 @@ def replay_behaviour(job):
                                          % (cmd_text(cmd), msg, where)))
                     else:
                         findings.append(("D", kind, "after %s: %s %s" % (cmd_text(cmd), msg, where)))
-                break       # the directory has left the model's behaviour: later states cannot be compared
+                if any(kind in DOCUMENTED for kind, _m in diffs):
+                    break   # the directory has left the model's behaviour: later states cannot be compared
         return findings, stats
     except _Timeout:
         findings.append(("M", "timeout", "behaviour %s did not finish within 300 s" % meta["id"]))
@@ -695,9 +704,13 @@ def run(ctx):
                 ctx.drift("%s %s" % (key, msg))
     if not jobs:
         ctx.machinery("no behaviours")
+    planned = {}
+    for _meta, states in jobs:
+        for rec in states[1:]:
+            planned[rec["act"]] = planned.get(rec["act"], 0) + 1
     for need in ("Sample", "CascadeClean", "CascadeLeavesOrphans", "TransformClean", "TransformLeavesStale", "WriteWtml", "NewBuilder"):
-        if not acts.get(need):
-            ctx.machinery("no replayed behaviour took action %s" % need)
+        if planned.get(need, 0) < 2:
+            ctx.machinery("the behaviours to replay take action %s %d times: the scripts no longer reach it" % (need, planned.get(need, 0)))
     ctx.exhaustive = True
     ctx.note("tlc_all_sequences", {"T": 2, "max_depth": MAXD, "commands_bound": bound, "distinct_states": r_bfs.distinct,
                                    "transitions": r_bfs.generated, "invariants": BASE_INVARIANTS})
